@@ -1,67 +1,4 @@
 """C07 — each layer is served as a correct overlayfs lower directory of the OCI layer."""
-import os
-
-# Signatures of the labelled stream (TestVerifC07Findings): inputs on which the CURRENT code is known to
-# break the property.  They are produced only by that stream.  A signature listed in
-# findings/known_findings.txt goes through the normal KNOWN-FINDING path; until the lead records it, it is
-# printed as CANDIDATE-FINDING and kept in the evidence (every other signature of that stream, and every
-# signature of the main stream, is a VIOLATION as usual).
-CANDIDATE_SIGS = {
-    "whiteout-of-dotwh-name-listed-not-lookupable":
-        "a whiteout whose target itself begins with .wh. (e.g. foo/.wh..wh.foo, foo/.wh..wh..wh..opq) makes Readdir "
-        "list the name .wh.foo / .wh..wh..opq as a character device, while Lookup answers ENOENT for every .wh.* name",
-    "whiteout-of-landmark-listed-in-root-not-lookupable":
-        "a root whiteout of a landmark name (.wh..prefetch.landmark, .wh..no.prefetch.landmark) makes Readdir list "
-        "the landmark name in / as a character device, while Lookup answers ENOENT for landmark names in /",
-    "whiteout-with-empty-or-dot-target-listed":
-        "a file named exactly .wh. / .wh.. / .wh... makes Readdir list an entry with the empty name / a second '.' / "
-        "a second '..' as a character device",
-}
-
-
-def findings_stream(ctx, binary, n):
-    ops, impl, rep = ctx.run_harness(binary, "TestVerifC07Findings", "c07findings", env={"VERIF_N": n})
-    if rep.get("crashed"):
-        ctx.add_violation({"kind": "harness-crash", "test": "TestVerifC07Findings", "seed": ctx.seed,
-                           "output": rep.get("crash_output", "")}, sig="crash:TestVerifC07Findings")
-    if not os.path.exists(ops):
-        return
-    model = ctx.run_driver("svdriver_c07", ops)
-    nops, mism, nm = ctx.diff_streams(ops, impl, model)
-    ctx.cov["evaluations"] += nops
-    ctx.cov["traces_validated_against_impl"] += nops - nm
-    ctx.cov["correspondence_mismatches"] += nm
-    ctx.cov["stats"]["c07findings"] = rep.get("stats") or {}
-    fails = rep.get("oracle_failures") or []
-    cand, other = {}, []
-    for f in fails:
-        if f["sig"] in CANDIDATE_SIGS:
-            cand.setdefault(f["sig"], f)
-        else:
-            other.append(f)
-    for sig, f in sorted(cand.items()):
-        if ctx.is_known(sig):
-            ctx.known_hits[sig] = ctx.is_known(sig)["what"]
-        else:
-            print(f"CANDIDATE-FINDING: property=C07 sig={sig} {CANDIDATE_SIGS[sig]} -- witness: {f['what'][:300]}",
-                  flush=True)
-    ctx.cov["candidate_findings"] = {s: {"what": CANDIDATE_SIGS[s], "witness": f["what"], "count":
-                                         sum(1 for x in fails if x["sig"] == s)} for s, f in cand.items()}
-    ctx.cov["oracle_failures"] += len(other)
-    seen = set()
-    for f in other:
-        if f["sig"] in seen:
-            continue
-        seen.add(f["sig"])
-        ctx.add_violation({"kind": "oracle", "test": "TestVerifC07Findings", "seed": ctx.seed, "failure": f,
-                           "all_failures": other[:20]}, sig=f["sig"])
-    if nm and not other:
-        ctx.broken.append("correspondence:c07findings")
-        ctx.pending_mismatch = {"kind": "correspondence", "test": "TestVerifC07Findings", "seed": ctx.seed,
-                                "mismatches": mism, "count": nm}
-    missing = [s for s in CANDIDATE_SIGS if s not in cand]
-    if missing:
-        ctx.notes.append("labelled stream: these recorded defects no longer reproduce: " + ", ".join(missing))
 
 
 def run(ctx):
@@ -70,7 +7,9 @@ def run(ctx):
     b = ctx.go_test_binary("fs/layer", "h_layer")
     if b:
         ctx.correspond(b, "TestVerifC07", "svdriver_c07", "c07", env={"VERIF_N": 70 if quick else 4000})
-        findings_stream(ctx, b, 20 if quick else 600)
+        # regression stream for the defects repaired by 545b9cc (whiteouts of .wh.* names, of landmark names in
+        # the root, of "", "." and ".."): same oracle, same signatures, now ordinary violations
+        ctx.correspond(b, "TestVerifC07Findings", "svdriver_c07", "c07regress", env={"VERIF_N": 20 if quick else 600})
     return ctx.finish(
         level="proof",
         rule="one case = one layer built by the real builder from a generated tar (additions, whiteouts, opaque "
@@ -90,8 +29,9 @@ def run(ctx):
             "no real entry is a 0/0 character device; no real directory carries the kernel's overlay opaque xattr "
             "itself; the served opaque mode covers the xattr namespace the kernel mount reads "
             "(each shown necessary by a proved counterexample)",
-            "listing_lookup_agree / markers_hidden hold under WhTargetsPlain (no whiteout of a .wh.* name or of a "
-            "landmark name in /); the full statements are refuted on the current code (candidate findings)",
+            "names are non-empty (a FUSE LOOKUP never carries the empty name; Lookup(\"\") with a child named "
+            "exactly .wh. is memoisation-dependent - proved, history_independent_needs_valid)",
+            "real entries of a layer are named by path components (non-empty, not . or ..)",
             "root filesystem equality is equality of the path -> (kind, attributes of the providing entry) maps; "
             "xattr listings of the merged view are outside the model",
             "memory metadata store only (the db store lives in the cmd module; its equivalence is C05)",
